@@ -16,6 +16,26 @@ pub fn run(args: &[String]) {
         println!("{:?}", r.map(|_| ()));
         return;
     }
+    if which == "history" {
+        // debug history <C02|C06|C03> <case.json>: replay, print the embedded encoding and its E2 reading
+        let case: serde_json::Value = serde_json::from_str(&std::fs::read_to_string(&args[2]).unwrap()).unwrap();
+        let ops: Vec<crate::refgraph::Op> = serde_json::from_value(case["case"]["ops"].clone()).unwrap();
+        let u = match args[1].as_str() {
+            "C02" => crate::c02::universe("C02", mc_core::Tier::Quick),
+            "C03" => crate::c03::universe("C03", mc_core::Tier::Quick),
+            _ => crate::c06::universe("C06", mc_core::Tier::Quick),
+        };
+        let st = crate::e1::rebuild(&u, &ops).expect("history replays");
+        for define in [true, false] {
+            let b = st.real.encode(wac_graph::EncodeOptions { define_components: define, validate: false, processor: None }).unwrap();
+            if !define {
+                println!("{}", wasmprinter::print_bytes(&b).unwrap());
+            }
+            let d = mc_core::e2::decode(&b).unwrap();
+            println!("define={define}\n exports {:?}\n aliases {:?}\n names {:?}", d.exports, d.aliases, d.names);
+        }
+        return;
+    }
     if which == "uses" {
         for spec in crate::c01::lib_t() {
             let mut types = Types::default();
